@@ -18,17 +18,17 @@ from ..rsi.sym import band, biff, bnot, bor, is_sym, lift
 PROP = "C16"
 
 
-def native_case(nodes, di, bi):
+def native_case(nodes, di, bi, order=None):
     from y0.graph import NxMixedGraph
 
     g = NxMixedGraph()
-    for n in nodes:
+    for n in (order or nodes):
         g.add_node(n)
     for u, v in di:
         g.add_directed_edge(u, v)
     for u, v in bi:
         g.add_undirected_edge(u, v)
-    rec = {"nodes": [n.name for n in nodes], "di": [[u.name, v.name] for u, v in di], "bi": [[u.name, v.name] for u, v in bi]}
+    rec = {"nodes": [n.name for n in nodes], "di": [[u.name, v.name] for u, v in di], "bi": [[u.name, v.name] for u, v in bi], "order": [n.name for n in (order or nodes)]}
     try:
         back = NxMixedGraph.from_latent_variable_dag(g.to_latent_variable_dag())
     except Exception as e:  # noqa: BLE001
@@ -47,7 +47,7 @@ def work(job):
 
     U = universe(N)
     M = N * (N - 1) // 2
-    L = [Variable(f"u_{i}") for i in range(M)]
+    L = [Variable(f"u_{i}") for i in range(2 * M)]  # both orientations of an edge are candidates of the sorted list
     it = Interp(U + L)
     inp = SymInput(U, acyclic=True)
     # the symbolic input lives on U only; latent names are reserved for the conversion
@@ -79,7 +79,7 @@ def work(job):
     out["nvars"] = len(inp.d) + len(inp.b) + len(inp.p)
     if verdict == "sat":
         nodes, di, bi = inp.concrete(model)
-        out["cex"] = native_case(nodes, di, bi)
+        out["cex"] = native_case(nodes, di, bi, inp.insertion_order(model))
     return out
 
 
@@ -94,10 +94,11 @@ def validate_native(n):
                 di = [p for i, p in enumerate(ps) if dm >> i & 1]
                 for bm in range(1 << len(ps)):
                     bi = [p for i, p in enumerate(ps) if bm >> i & 1]
-                    cnt += 1
-                    r = native_case(list(nodes), di, bi)
-                    if r["bad"] and len(bad) < 4:
-                        bad.append(r)
+                    for order in (list(nodes), list(reversed(nodes))):
+                        cnt += 1
+                        r = native_case(list(nodes), di, bi, order)
+                        if r["bad"] and len(bad) < 4:
+                            bad.append(r)
     return cnt, bad
 
 
@@ -110,7 +111,7 @@ def run() -> int:
         "y0/graph.py: NxMixedGraph.to_latent_variable_dag, _latent_dag, NxMixedGraph.from_latent_variable_dag, raise_on_counterfactual, add_directed_edge, add_undirected_edge (AST of the current source)",
     ]
     rep.stubs = [
-        "networkx models as in C14 plus node attributes (add_node(**attr), nx.set_node_attributes, graph.nodes.items()/values(), data[tag], tag in data)",
+        "networkx models as in C14 (undirected edges are reported from their earlier-inserted endpoint; the insertion order is a symbolic permutation) plus node attributes (add_node(**attr), nx.set_node_attributes, graph.nodes.items()/values(), data[tag], tag in data)",
         "enumerate() over the sorted guarded list of bidirected edges: the latent index is the number of present earlier edges (guarded case split over (edge, index) pairs)",
     ]
     rep.bounds = {"universe_nodes": Ns, "graphs": "every ADMG on a subset of the universe, including nodes without edges", "solver_timeout_ms": timeout_ms}
@@ -155,7 +156,7 @@ def run() -> int:
 def replay(payload: dict) -> int:
     from y0.dsl import Variable as V
 
-    r = native_case([V(n) for n in payload["nodes"]], [(V(u), V(v)) for u, v in payload["di"]], [(V(u), V(v)) for u, v in payload["bi"]])
+    r = native_case([V(n) for n in payload["nodes"]], [(V(u), V(v)) for u, v in payload["di"]], [(V(u), V(v)) for u, v in payload["bi"]], [V(n) for n in payload.get("order", payload["nodes"])])
     print(r)
     print("reproduced" if r["bad"] else "not reproduced")
     return 1 if r["bad"] else 0
